@@ -50,6 +50,19 @@ fn rig() -> Result<Rig, String> {
 /// send the datagrams one at a time; compare what the transport returns for each with the decode
 /// of the datagram's own bytes. Err = harness error (loopback did not deliver).
 fn play(history: &[Vec<u8>]) -> Result<Option<CViol>, String> {
+    // a receive that times out (loaded or stalled host) is retried on a fresh transport; only three
+    // timeouts in a row are a harness error
+    let mut last = String::new();
+    for _ in 0..3 {
+        match play_once(history) {
+            Err(e) => last = e,
+            ok => return ok,
+        }
+    }
+    Err(last)
+}
+
+fn play_once(history: &[Vec<u8>]) -> Result<Option<CViol>, String> {
     // a fresh transport per history: the verdict is a function of the history alone (a transport
     // carried over from the previous history would make a finding depend on datagrams that the
     // replay file does not list)
